@@ -277,6 +277,18 @@ def check_override(case, ctx):
             f"override:{family}:{method}:{'+'.join(subset)}",
             f"base={base} explicit={ {n: merged[n] for n in subset} } passing={case['passing']} x={arg.tolist()} got={got.tolist()} expected={expected.tolist()}",
         )
+    # seeded sampling with explicit parameters == sampling from the constructed instance
+    if method == "cdf":
+        try:
+            s_got = np.asarray(d_base.draw_sample(7, *a, **k, random_state=12345), dtype=float)
+            s_exp = np.asarray(d_new.draw_sample(7, random_state=12345), dtype=float)
+            if s_got.shape != s_exp.shape or not np.allclose(s_got, s_exp, rtol=1e-13, atol=0):
+                ctx.violation(f"override:{family}:draw_sample:{'+'.join(subset)}", f"base={base} explicit={ {n: merged[n] for n in subset} }: {s_got[:3].tolist()} vs {s_exp[:3].tolist()}")
+        except RuntimeError:
+            if not (family == "LogNormalNormFit" and len(subset) == 1):
+                raise
+        except Exception as e:  # noqa: BLE001
+            ctx.violation(f"raises:override:{family}:draw_sample:{type(e).__name__}", str(e)[:200])
     # the call must not have changed the instance
     if d_base.parameters != (build.dist(family, None if case.get("from_default") and set(subset) == set(names) else base)).parameters:
         ctx.violation(f"override_mutates:{family}:{method}", f"{d_base.parameters}")
